@@ -155,9 +155,11 @@ def check(run):
             run.check(got == want, 'D2', 'write_label' if got != want else f'write[{lab[:12]}{"..." if len(lab) > 12 else ""},m={m}]',
                       f'label {lab[:16]!r} (n={len(lab)}) with m={m}: wrote {got[:40]}, HmLabel canonical encoding {want[:40]}', wl)
             run.evaluations += 1
-            # reader on every valid kind
-            for kind in dictspec.valid_kinds(lab, m):
-                enc = dictspec.encode_label(lab, m, kind)
+            # reader on every valid kind (the empty label also as hml_same with n = 0, for either value of the repeated bit)
+            kinds_ = list(dictspec.valid_kinds(lab, m)) + (['same-empty-0', 'same-empty-1'] if lab == '' else [])
+            for kind in kinds_:
+                enc = dictspec.encode_label(lab, m, kind) if not kind.startswith('same-empty') else \
+                    '11' + kind[-1] + (format(0, f'0{m.bit_length()}b') if m.bit_length() else '')
                 if len(enc) + 5 > 1023:
                     continue
                 it = Interp(prog)
